@@ -14,7 +14,7 @@ Definition idecode_tag (b : bytes) : payload Z :=
   match b with
   | 1%N :: _ => PBadUtf8 | 2%N :: _ => PNotJson | 3%N :: _ => PNotDict | 4%N :: _ => PNoCommand
   | 5%N :: _ => PCommandNotStr | 6%N :: _ => PUnknown | 7%N :: _ => PBadArgs false | 8%N :: _ => PBadArgs true
-  | 9%N :: _ => PCmd 9 | 10%N :: _ => PStop | 11%N :: _ => PCmd 11
+  | 9%N :: _ => PCmd 9 | 10%N :: _ => PStop | 11%N :: _ => PCmd 11 | 12%N :: _ => PCmd 12
   | _ => PNotJson
   end.
 
@@ -31,6 +31,9 @@ Definition idecode (b : bytes) : payload Z :=
 
 Definition irun (k : Z) (log : list Z) : list Z * bool := (log ++ [k], k =? 11).
 
+(* command 12 is a check on a daemon started with -v: the build logs to sys.stderr while it runs *)
+Definition italks (k : Z) (_ : list Z) : bool := k =? 12.
+
 Definition code (r : reply Z) : Z :=
   match r with
   | NoReply => 0 | ErrNoCommand => 1 | ErrNotStr => 2 | ErrUnknown => 3 | ErrBadArgs => 4
@@ -41,7 +44,7 @@ Definition pad (tag : N) (n : nat) : bytes :=
   match n with O => [] | S O => [tag] | S (S k) => tag :: repeat 0%N k ++ [125%N] end.
 Definition fr (tag : N) (n : nat) : bytes := encode_frame (pad tag n).
 
-(* replies (coded), still serving?, status file present?, commands executed *)
-Definition session (sh : shape) (cs : list conn) : list Z * (bool * bool) * list Z :=
-  let '(d, rs) := serve Z (list Z) irun idecode sh (start (list Z) []) cs in
-  (map code rs, (match ph d with Serving => true | Exited => false end, status_file d), app d).
+(* replies (coded), process still there (serving or blocked in recv)?, status file present?, blocked?, commands executed *)
+Definition esession (sh : shape) (idle : bool) (evs : list event) : list Z * (bool * bool) * bool * list Z :=
+  let '(e, rs) := steps Z (list Z) irun idecode italks sh idle (estart (list Z) []) evs in
+  (map code rs, (match ph (core e) with Serving => true | Exited => false end, status_file (core e)), blocked e, app (core e)).
